@@ -173,8 +173,12 @@ func (env *SpecEnv) eval(e *SExpr) SVal {
 			}
 		}
 		body := fv.evalBool(&ne, e.Args[0])
+		var pats []*Term
+		for _, p := range e.Pats {
+			pats = append(pats, ne.eval(p).T)
+		}
 		if e.Op == "forall" {
-			return SVal{T: Forall(bvs, Implies(And(ranges...), body)), Typ: types.Typ[types.Bool]}
+			return SVal{T: Forall(bvs, Implies(And(ranges...), body), pats...), Typ: types.Typ[types.Bool]}
 		}
 		return SVal{T: Exists(bvs, And(append(ranges, body)...)), Typ: types.Typ[types.Bool]}
 	case "call":
@@ -302,6 +306,18 @@ func (env *SpecEnv) local(name string) (SVal, bool) {
 	for _, ins := range allAllocs(f.fn) {
 		if ins.Comment == name {
 			cands = append(cands, ins)
+		}
+	}
+	if name == "rangeindex" && f.block != nil {
+		// the hidden index of the range loop whose header is the current block
+		cands = nil
+		for _, ins := range f.block.Instrs {
+			if u, ok := ins.(*ssa.UnOp); ok {
+				if a, ok := u.X.(*ssa.Alloc); ok && a.Comment == "rangeindex" {
+					cands = []*ssa.Alloc{a}
+					break
+				}
+			}
 		}
 	}
 	pick := func() *ssa.Alloc {
@@ -444,6 +460,9 @@ func (env *SpecEnv) index(e *SExpr) SVal {
 		has := Select(fv.mapHas(env.st, x.T, u), k.T)
 		return SVal{T: Ite(has, Select(fv.mapVals(env.st, x.T, u), k.T), c.Zero(u.Elem())), Typ: u.Elem()}
 	case *types.Slice:
+		if g := fv.immutableGlobalSlice(x.T); g != "" {
+			return SVal{T: c.Func("gelem_"+g, c.SortOf(u.Elem()), env.toW(i)), Typ: u.Elem()}
+		}
 		key, hs := fv.elemsKey(u.Elem())
 		arr := Select(fv.heap(env.st, key, hs), Field(x.T, 0))
 		return SVal{T: Select(arr, c.WAdd(Field(x.T, 1), env.toW(i))), Typ: u.Elem()}
@@ -671,6 +690,25 @@ func (env *SpecEnv) call(e *SExpr) SVal {
 				return SVal{T: Select(env.iterStart, k.T), Typ: types.Typ[types.Bool]}
 			}
 			return SVal{T: Select(env.visited, k.T), Typ: types.Typ[types.Bool]}
+		case "elemsUnchangedExcept":
+			// every element of the backing stores of p's element type outside p's range is as in old()
+			x := env.eval(args[0])
+			sl, ok := types.Unalias(x.Typ).Underlying().(*types.Slice)
+			if !ok || env.old == nil {
+				env.fail("elemsUnchangedExcept needs a slice and an old state")
+			}
+			key, hs := fv.elemsKey(sl.Elem())
+			cur, old := fv.heap(env.st, key, hs), fv.heap(env.old, key, hs)
+			if sameTerm(cur, old) {
+				return SVal{T: True, Typ: types.Typ[types.Bool]}
+			}
+			r := BoundVar("r_q", SInt)
+			j := BoundVar("j_q", c.W)
+			lo := Field(x.T, 1)
+			hi := c.WAdd(lo, Field(x.T, 2))
+			inside := And(Eq(r, Field(x.T, 0)), c.WLe(lo, j), c.WLt(j, hi))
+			body := Implies(Not(inside), Eq(Select(Select(cur, r), j), Select(Select(old, r), j)))
+			return SVal{T: Forall([]*Term{r, j}, body, Select(Select(cur, r), j)), Typ: types.Typ[types.Bool]}
 		case "allocated":
 			x := env.eval(args[0])
 			return SVal{T: And(ILe(IntLit(0), x.T), ILt(x.T, env.st.nextRef)), Typ: types.Typ[types.Bool]}
